@@ -28,7 +28,8 @@ TokAlpha == { <<>>, <<"-">>, <<"-", "-">>, <<"-", "-", "-">>, <<"-", "-", "=">>,
               <<"-", "-", "a", "a">>, <<"-", "-", "a", "a", "=", "x">>, <<"-", "-", "a", "a", "=">>, <<"-", "-", "a", "a", "=", "7">>,
               <<"-", "-", "z", "z">>, <<"-", "a">>, <<"-", "a", "x">>, <<"-", "a", "b">>, <<"-", "b", "a">>, <<"-", "z">>,
               <<"-", "5">>, <<"n", "u", "l", "l">>, <<"x">>, <<"7">>, <<"s", "r", "v">>, <<"s">>,
-              <<"-", "-", "b", "b">>, <<"-", "b">>, <<"-", "-", "a">> }
+              <<"-", "-", "b", "b">>, <<"-", "b">>, <<"-", "-", "a">>,
+              <<"-", "-", "-", "a", "a">> }      \* one dash too many in front of a declared name
 Lines(n) == UNION { [1..k -> TokAlpha] : k \in 0..n }
 
 Outcome == [err |-> err, result |-> result]
